@@ -12,7 +12,10 @@ def sessions_cases(ctx, n_cases, per=4):
     from .c06 import no_ghost_tree
     plus = {"out": ["m"], "facs": [{"t": "A", "ix": ["m"]}, {"t": "B", "ix": ["m"]}], "plus": 1}
     for _ in range(len(pool) // 6 + 4):
-        pool.append({"shape": "ewadd", "expr": plus, "ops": {"A": no_ghost_tree(rng, 4, 1, 0.2), "B": no_ghost_tree(rng, 4, 1, 0.2)}, "order": ["m"], "style": "tf",
+        b = no_ghost_tree(rng, 4, 1, 0.2)
+        # negative values: sums that cancel assign the value the output reference already holds (an update all the same)
+        b = {"k": "F", "e": [[c, {"k": "L", "v": -p["v"] if rng.random() < 0.5 else p["v"]}] for c, p in b["e"]]}
+        pool.append({"shape": "ewadd", "expr": plus, "ops": {"A": no_ghost_tree(rng, 4, 1, 0.2), "B": b}, "order": ["m"], "style": "tf",
                      "extents": {"m": 4}, "zshape": 1})
     cases = []
     for _ in range(n_cases):
